@@ -114,6 +114,7 @@ func (e *Engine) Solve(obls []*Obligation, cfg SolveCfg) {
 		if len(base) > 180 {
 			base = base[:180]
 		}
+		o.Hyps = append(o.Hyps, e.axioms...) // distinct addresses of package-level variables
 		if os.Getenv("GOVC_NO_UZ") == "" {
 			o.Hyps = append(o.Hyps, e.umulZeroFacts(o)...)
 		}
